@@ -89,10 +89,9 @@ RunOutput run_sched(const Plan& plan, const RunOpts&)
         if (owners[(size_t) t]) return owners[(size_t) t].get();  // the owner itself also runs on a view
         return nullptr;
     };
-    // ---- phase 1: every script alone, one after another (reference) ----
+    // ---- phase 1: concurrently under the seeded scheduler. It runs FIRST: a lazily initialised static or a
+    // once-only cache that the sequential reference would prime on the controller thread must meet the tasks cold ----
     std::vector<TaskResult> ref((size_t) T), con((size_t) T);
-    for (int t = 0; t < T; t++) run_task(plan.tasks[(size_t) t], owner_of(t), nullptr, t, ref[(size_t) t]);
-    // ---- phase 2: concurrently under the seeded scheduler ----
     const long san0 = sanitizer_reports();
     Scheduler* sched = sched_create(T, plan.policy, plan.policy_p, plan.sched_seed, plan.explicit_schedule ? plan.schedule.data() : nullptr,
                                     (long) plan.schedule.size());
@@ -111,6 +110,8 @@ RunOutput run_sched(const Plan& plan, const RunOpts&)
         for (auto& th : threads) th.join();
     }
     const long reports = sanitizer_reports() - san0;
+    // ---- phase 2: every script alone, one after another (reference) ----
+    for (int t = 0; t < T; t++) run_task(plan.tasks[(size_t) t], owner_of(t), nullptr, t, ref[(size_t) t]);
     // ---- oracle ----
     if (reports > 0)
     {
